@@ -211,7 +211,7 @@ func mustMarshal(m proto.Message) []byte {
 func typedVariant(r *hx.Rng, k *mKey) string {
 	hashes := []commonpb.HashType{0, 1, 2, 3, 4, 5, 6}
 	ver := uint32(0)
-	if r.Chance(8) {
+	if !calm && r.Chance(8) {
 		ver = hx.PickS(r, []uint32{1, 2, 1 << 31})
 	}
 	switch strings.TrimPrefix(k.URL, tp) {
@@ -297,6 +297,9 @@ func typedVariant(r *hx.Rng, k *mKey) string {
 		v.Version = ver
 		k.Value = mustMarshal(v)
 	default:
+		if l, ok := typedVariant2(r, k, ver); ok {
+			return l
+		}
 		return "typed-skip"
 	}
 	return "typed"
@@ -425,19 +428,23 @@ func c14Gen(r *hx.Rng, n int, tier string) []string {
 	// directed cases first: the boundary of every minimum the property names
 	lines = append(lines, directed()...)
 	lines = append(lines, directedWire()...)
+	lines = append(lines, directed2()...)
 	for len(lines) < n {
 		x := r.Intn(100)
 		switch {
-		case x < 24: // keyset-level structure
+		case x < 20: // keyset-level structure
 			ks, names := validKeyset(r, 1+r.Intn(4), 80)
 			label := mutateKeyset(r, ks)
 			if r.Chance(15) {
 				label += "+" + mutateKeyset(r, ks)
 			}
 			lines = append(lines, "B|"+hx.H(ks.Marshal())+"|ks-"+label+":"+names[0])
-		case x < 44: // typed key variants around the boundaries
+		case x < 50: // typed key variants around the boundaries (x >= 30: of the key types modelled in the second round)
 			ks, _ := validKeyset(r, 1+r.Intn(2), 100)
 			i := r.Intn(len(ks.Keys))
+			if x >= 30 {
+				ks.Keys[i] = toMKey(bank[bankMod2[r.Intn(len(bankMod2))]], ks.Keys[i].ID, ks.Keys[i].Status)
+			}
 			l := typedVariant(r, &ks.Keys[i])
 			if r.Chance(20) {
 				ks.Keys[i].Prefix = hx.PickS(r, []uint64{1, 2, 3, 4})
@@ -446,7 +453,7 @@ func c14Gen(r *hx.Rng, n int, tier string) []string {
 				ks.Keys[i].Mat = hx.PickS(r, []uint64{0, 1, 2, 3, 4})
 			}
 			lines = append(lines, "B|"+hx.H(ks.Marshal())+"|"+l+":"+strings.TrimPrefix(ks.Keys[i].URL, tp))
-		case x < 64: // wire-level mutation of one key value
+		case x < 66: // wire-level mutation of one key value
 			ks, names := validKeyset(r, 1+r.Intn(2), 75)
 			i := r.Intn(len(ks.Keys))
 			v, l := mutateValue(r, ks.Keys[i].Value, 2)
@@ -468,7 +475,7 @@ func c14Gen(r *hx.Rng, n int, tier string) []string {
 				b, l = b[:r.Intn(len(b))], "truncated"
 			}
 			lines = append(lines, "B|"+hx.H(b)+"|fuzz-"+l+":"+names[0])
-		case x < 84: // JSON
+		case x < 83: // JSON
 			ks, names := validKeyset(r, 1+r.Intn(3), 85)
 			label := "valid"
 			if r.Chance(50) {
@@ -496,7 +503,7 @@ func c14Gen(r *hx.Rng, n int, tier string) []string {
 				nm = names[0]
 			}
 			lines = append(lines, "J|"+hx.H([]byte(text))+"|"+bin+"|json-"+jsonMutNames[m]+"-"+label+":"+nm)
-		case x < 90: // proto-message API with nil parts
+		case x < 89: // proto-message API with nil parts
 			ks, names := validKeyset(r, 1+r.Intn(3), 85)
 			label := "valid"
 			if r.Chance(30) {
